@@ -452,7 +452,10 @@ func (c *capture) ConsumeTraces(_ context.Context, td ptrace.Traces) error {
 	c.t = append(c.t, td)
 	return nil
 }
-func (c *capture) ConsumeLogs(_ context.Context, ld plog.Logs) error { c.l = append(c.l, ld); return nil }
+func (c *capture) ConsumeLogs(_ context.Context, ld plog.Logs) error {
+	c.l = append(c.l, ld)
+	return nil
+}
 func (c *capture) ConsumeMetrics(_ context.Context, md pmetric.Metrics) error {
 	c.m = append(c.m, md)
 	return nil
@@ -464,6 +467,7 @@ func runObf(o opts, out *Output) {
 	var sb strings.Builder
 	sb.WriteString("Definition obf_cases : list (N * bool * list bytes * list (list item * list item)) := [\n")
 	f := obf.NewFactory()
+	emitted := 0
 	for c := 0; c < o.n; c++ {
 		g := &gen{r: r.Fork()}
 		signal := r.Intn(3)
@@ -578,9 +582,10 @@ func runObf(o opts, out *Output) {
 		for _, k := range listed {
 			ls = append(ls, coqBytes(k))
 		}
-		if c > 0 {
+		if emitted > 0 {
 			sb.WriteString(";\n")
 		}
+		emitted++
 		fmt.Fprintf(&sb, " (%d, %v, [%s], [%s])", signal, all, strings.Join(ls, "; "), strings.Join(pairs, ";\n  "))
 		out.AddCase(map[string]any{"signal": []string{"traces", "logs", "metrics"}[signal], "encrypt_all": all, "encrypt_attributes": listed, "rounds": cfg.Rounds, "key_length": cfg.KeyLength, "docs": sample},
 			nattrs > 0, fmt.Sprintf("signal=%d all=%v listed=%d", signal, all, len(listed)))
@@ -661,6 +666,7 @@ func runFeistel(o opts, out *Output) {
 	r := NewRng(o.seed)
 	var sb strings.Builder
 	sb.WriteString("Definition feistel_cases : list (nat * list (list N * nat * list N) * list N * list N) := [\n")
+	nFeistel := 0
 	for c := 0; c < o.n; c++ {
 		key := fmt.Sprintf("key-%d-%d", o.seed, r.Intn(1000))
 		rounds := 2 + r.Intn(9)
@@ -714,9 +720,10 @@ func runFeistel(o opts, out *Output) {
 		dec, derr := cipher.Decrypt(res)
 		_ = dec
 		_ = derr
-		if c > 0 {
+		if nFeistel > 0 {
 			sb.WriteString(";\n")
 		}
+		nFeistel++
 		fmt.Fprintf(&sb, " (%d%%nat, [%s], %s, %s)", rounds, strings.Join(table, "; "), coqBytes(src), coqBytes(got))
 		out.AddCase(map[string]any{"rounds": rounds, "len": n, "src": []byte(src), "encrypted": []byte(got)}, n > 1, fmt.Sprintf("len=%d", n))
 	}
